@@ -1,11 +1,999 @@
-//! C06 -- not built yet (stub so the crate layout is stable).
-use crate::engine::report::{Ctx, Report};
-use serde_json::Value;
+//! C06 -- the library reads back its own SGR output and applies it with SGR semantics.
+//!
+//! (a) Round trip, complete over lattices: every `FaceModify` / `Face` / character is encoded by
+//!     `TTYEncoder` in true colour and decoded again by `TTYCommandDecoder` under every
+//!     partition of the bytes with at most two cuts; the decoded commands must be the same
+//!     face change (for `Face`: the equivalent reset-plus-sets record) and the same characters.
+//! (b) Explicit-state BFS over SGR histories written through `CellWrite::tty_writer()`:
+//!     state = current face of the sink, alphabet = SGR sequences built from the codes the
+//!     library's interpreter claims, each followed by a text character whose cell is observed.
+//!     Every history is executed under many partitions of its bytes into `write()` calls and
+//!     compared with the reference SGR machine of `model::sgr`.
+use crate::engine::report::{Ctx, Report, Samples, Tier, Violations};
+use crate::engine::util::{esc, hash128};
+use crate::engine::{bfs, catch};
+use crate::model::sgr::{self, Colour, Param, Rendition, Underline};
+use rayon::prelude::*;
+use serde::{Deserialize, Serialize};
+use serde_json::{json, Value};
+use std::io::Write;
+use std::sync::atomic::{AtomicU64, Ordering};
+use surf_n_term::decoder::{Decoder, TTYCommandDecoder};
+use surf_n_term::encoder::{ColorDepth, Encoder, TTYEncoder};
+use surf_n_term::render::CellKind;
+use surf_n_term::{
+    Cell, CellWrite, Face, FaceAttrs, FaceModify, TerminalCaps, TerminalCommand, UnderlineStyle, RGBA,
+};
 
-pub fn run(_ctx: &Ctx) -> Result<Report, String> {
-    Err("C06: check not built yet".into())
+type Rgb = [u8; 3];
+
+fn rgba(c: Rgb) -> RGBA {
+    RGBA::new(c[0], c[1], c[2], 255)
 }
 
-pub fn replay(_w: &Value) -> Result<(bool, String), String> {
-    Err("C06: check not built yet".into())
+fn ul_style(n: u8) -> UnderlineStyle {
+    match n {
+        1 => UnderlineStyle::Straight,
+        2 => UnderlineStyle::Double,
+        3 => UnderlineStyle::Curly,
+        4 => UnderlineStyle::Dotted,
+        5 => UnderlineStyle::Dashed,
+        _ => UnderlineStyle::None,
+    }
+}
+
+/// flags: bit0 bold, bit1 italic, bit2 blink, bit3 reverse, bit4 strike
+fn attrs(flags: u8, ul: u8) -> FaceAttrs {
+    let mut a: FaceAttrs = ul_style(ul).into();
+    for (bit, f) in [
+        (1, FaceAttrs::BOLD),
+        (2, FaceAttrs::ITALIC),
+        (4, FaceAttrs::BLINK),
+        (8, FaceAttrs::REVERSE),
+        (16, FaceAttrs::STRIKE),
+    ] {
+        if flags & bit != 0 {
+            a = a.insert(f);
+        }
+    }
+    a
+}
+
+/// Readable rendering (the Debug form of RGBA paints itself with escape sequences).
+fn show_colour(c: Option<RGBA>) -> String {
+    c.map(|c| c.to_string()).unwrap_or_else(|| "-".into())
+}
+
+fn show_cmd(c: &TerminalCommand) -> String {
+    match c {
+        TerminalCommand::FaceModify(m) => format!(
+            "FaceModify{{reset:{} fg:{} bg:{} underline:{:?} underline_color:{} bold:{:?} italic:{:?} blink:{:?} strike:{:?}}}",
+            m.reset,
+            show_colour(m.fg),
+            show_colour(m.bg),
+            m.underline,
+            show_colour(m.underline_color),
+            m.bold,
+            m.italic,
+            m.blink,
+            m.strike
+        ),
+        TerminalCommand::Face(f) => format!("Face({f})"),
+        other => format!("{:?}", other),
+    }
+}
+
+fn show_cmds(cs: &[TerminalCommand]) -> String {
+    format!("[{}]", cs.iter().map(show_cmd).collect::<Vec<_>>().join(", "))
+}
+
+fn show_faces(fs: &[Face]) -> String {
+    format!("[{}]", fs.iter().map(|f| format!("Face({f})")).collect::<Vec<_>>().join(", "))
+}
+
+// ---------------------------------------------------------------------------------------
+// (a) round trip
+// ---------------------------------------------------------------------------------------
+
+#[derive(Debug, Clone, Copy, PartialEq, Default, Serialize, Deserialize)]
+struct ModSpec {
+    reset: bool,
+    #[serde(default, skip_serializing_if = "Option::is_none")]
+    fg: Option<Rgb>,
+    #[serde(default, skip_serializing_if = "Option::is_none")]
+    bg: Option<Rgb>,
+    #[serde(default, skip_serializing_if = "Option::is_none")]
+    ul: Option<u8>,
+    #[serde(default, skip_serializing_if = "Option::is_none")]
+    ulc: Option<Rgb>,
+    #[serde(default, skip_serializing_if = "Option::is_none")]
+    bold: Option<bool>,
+    #[serde(default, skip_serializing_if = "Option::is_none")]
+    italic: Option<bool>,
+    #[serde(default, skip_serializing_if = "Option::is_none")]
+    blink: Option<bool>,
+    #[serde(default, skip_serializing_if = "Option::is_none")]
+    strike: Option<bool>,
+}
+
+impl ModSpec {
+    fn modify(&self) -> FaceModify {
+        FaceModify {
+            reset: self.reset,
+            fg: self.fg.map(rgba),
+            bg: self.bg.map(rgba),
+            underline: self.ul.map(ul_style),
+            underline_color: self.ulc.map(rgba),
+            bold: self.bold,
+            italic: self.italic,
+            blink: self.blink,
+            strike: self.strike,
+        }
+    }
+}
+
+#[derive(Debug, Clone, Copy, PartialEq, Default, Serialize, Deserialize)]
+struct FaceSpec {
+    #[serde(default, skip_serializing_if = "Option::is_none")]
+    fg: Option<Rgb>,
+    #[serde(default, skip_serializing_if = "Option::is_none")]
+    bg: Option<Rgb>,
+    /// bit3 (reverse) has no counterpart in a modification record: everything else must still
+    /// be read back
+    flags: u8,
+    ul: u8,
+}
+
+impl FaceSpec {
+    fn face(&self) -> Face {
+        Face::new(self.fg.map(rgba), self.bg.map(rgba), attrs(self.flags, self.ul))
+    }
+    /// "set this face" as a modification: reset, then every colour and attribute it has
+    fn equivalent(&self) -> FaceModify {
+        let on = |bit: u8| (self.flags & bit != 0).then_some(true);
+        FaceModify {
+            reset: true,
+            fg: self.fg.map(rgba),
+            bg: self.bg.map(rgba),
+            underline: (self.ul != 0).then(|| ul_style(self.ul)),
+            underline_color: None,
+            bold: on(1),
+            italic: on(2),
+            blink: on(4),
+            strike: on(16),
+        }
+    }
+}
+
+#[derive(Debug, Clone, PartialEq, Serialize, Deserialize)]
+enum Item {
+    Modify(ModSpec),
+    Face(FaceSpec),
+    /// a character alone
+    Char(u32),
+    /// the character, a bold-on modification, the character again
+    CharCtx(u32),
+    /// a modification between two characters
+    ModifyCtx(ModSpec),
+}
+
+impl Item {
+    fn name(&self) -> &'static str {
+        match self {
+            Item::Modify(_) | Item::ModifyCtx(_) => "FaceModify",
+            Item::Face(_) => "Face",
+            Item::Char(_) | Item::CharCtx(_) => "Char",
+        }
+    }
+    fn commands(&self) -> Vec<TerminalCommand> {
+        let bold = FaceModify { bold: Some(true), ..FaceModify::default() };
+        match self {
+            Item::Modify(m) => vec![TerminalCommand::FaceModify(m.modify())],
+            Item::Face(f) => vec![TerminalCommand::Face(f.face())],
+            Item::Char(c) => vec![TerminalCommand::Char(char::from_u32(*c).unwrap_or('?'))],
+            Item::CharCtx(c) => {
+                let c = char::from_u32(*c).unwrap_or('?');
+                vec![TerminalCommand::Char(c), TerminalCommand::FaceModify(bold), TerminalCommand::Char(c)]
+            }
+            Item::ModifyCtx(m) => vec![
+                TerminalCommand::Char('a'),
+                TerminalCommand::FaceModify(m.modify()),
+                TerminalCommand::Char('\u{e9}'),
+            ],
+        }
+    }
+    /// what the decoder must give back (the statement: the same face change, the same characters)
+    fn expected(&self) -> Vec<TerminalCommand> {
+        let nothing = FaceModify::default();
+        self.commands()
+            .into_iter()
+            .filter_map(|c| match c {
+                TerminalCommand::Face(_) => match self {
+                    Item::Face(f) => Some(TerminalCommand::FaceModify(f.equivalent())),
+                    _ => None,
+                },
+                // a modification that changes nothing is written as nothing
+                TerminalCommand::FaceModify(m) if m == nothing => None,
+                other => Some(other),
+            })
+            .collect()
+    }
+}
+
+fn true_colour() -> TTYEncoder {
+    TTYEncoder::new(TerminalCaps { depth: ColorDepth::TrueColor, glyphs: false, kitty_keyboard: false })
+}
+
+fn encode_all(cmds: Vec<TerminalCommand>) -> Result<Vec<u8>, String> {
+    let mut enc = true_colour();
+    let mut out = Vec::with_capacity(96);
+    for cmd in cmds {
+        match catch(|| enc.encode(&mut out, cmd)) {
+            Err(p) => return Err(format!("encode panicked: {} ({}:{})", p.message, p.file, p.line)),
+            Ok(Err(e)) => return Err(format!("encode failed: {:?}", e)),
+            Ok(Ok(())) => {}
+        }
+    }
+    Ok(out)
+}
+
+/// Feed `bytes` to a fresh decoder, one `decode_into` per part.
+fn decode_parts(bytes: &[u8], parts: &[usize]) -> Result<Vec<TerminalCommand>, String> {
+    let r = catch(|| {
+        let mut dec = TTYCommandDecoder::new();
+        let mut out = Vec::new();
+        let mut off = 0;
+        for p in parts {
+            let mut cur = std::io::Cursor::new(&bytes[off..off + p]);
+            dec.decode_into(&mut cur, &mut out).map_err(|e| format!("decoder error: {:?}", e))?;
+            off += p;
+        }
+        // nothing may be left behind
+        let mut cur = std::io::Cursor::new(&b""[..]);
+        dec.decode_into(&mut cur, &mut out).map_err(|e| format!("decoder error: {:?}", e))?;
+        Ok::<_, String>(out)
+    });
+    match r {
+        Err(p) => Err(format!("decoder panicked: {} ({}:{})", p.message, p.file, p.line)),
+        Ok(r) => r,
+    }
+}
+
+/// Call `f` with every partition of `n` bytes that has at most `max_cuts` cuts; stops early
+/// when `f` returns false. Returns the number of partitions visited.
+fn for_partitions(n: usize, max_cuts: usize, mut f: impl FnMut(&[usize]) -> bool) -> u64 {
+    let mut count = 0;
+    if n == 0 {
+        f(&[]);
+        return 1;
+    }
+    count += 1;
+    if !f(&[n]) {
+        return count;
+    }
+    if max_cuts >= 1 {
+        for a in 1..n {
+            count += 1;
+            if !f(&[a, n - a]) {
+                return count;
+            }
+        }
+    }
+    if max_cuts >= 2 {
+        for a in 1..n {
+            for b in a + 1..n {
+                count += 1;
+                if !f(&[a, b - a, n - b]) {
+                    return count;
+                }
+            }
+        }
+    }
+    count
+}
+
+fn diff_kind(want: &[TerminalCommand], got: &[TerminalCommand]) -> String {
+    if want.len() != got.len() {
+        return format!("{}-commands-for-{}", got.len(), want.len());
+    }
+    for (w, g) in want.iter().zip(got) {
+        match (w, g) {
+            (TerminalCommand::FaceModify(a), TerminalCommand::FaceModify(b)) if a != b => {
+                for (name, differs) in [
+                    ("reset", a.reset != b.reset),
+                    ("fg", a.fg != b.fg),
+                    ("bg", a.bg != b.bg),
+                    ("underline", a.underline != b.underline),
+                    ("underline-colour", a.underline_color != b.underline_color),
+                    ("bold", a.bold != b.bold),
+                    ("italic", a.italic != b.italic),
+                    ("blink", a.blink != b.blink),
+                    ("strike", a.strike != b.strike),
+                ] {
+                    if differs {
+                        return name.to_string();
+                    }
+                }
+            }
+            (TerminalCommand::Char(a), TerminalCommand::Char(b)) if a != b => return "char".into(),
+            (a, b) if a != b => return "command-kind".into(),
+            _ => {}
+        }
+    }
+    "same".into()
+}
+
+/// One round trip under one partition. Err((kind, detail)).
+fn roundtrip(item: &Item, bytes: &[u8], parts: &[usize]) -> Result<(), (String, String)> {
+    let want = item.expected();
+    match decode_parts(bytes, parts) {
+        Err(e) => Err(("decoder-failure".into(), e)),
+        Ok(got) if got == want => Ok(()),
+        Ok(got) => Err((
+            diff_kind(&want, &got),
+            format!("bytes {:?} cut {:?}: decoded {}, written {}", esc(bytes), parts, show_cmds(&got), show_cmds(&want)),
+        )),
+    }
+}
+
+#[derive(Default)]
+struct Tally {
+    items: u64,
+    runs: u64,
+}
+
+/// All partitions (<= max_cuts) of one item.
+fn roundtrip_item(item: &Item, max_cuts: usize, viol: &Violations, t: &mut Tally) {
+    t.items += 1;
+    let bytes = match encode_all(item.commands()) {
+        Ok(b) => b,
+        Err(e) => {
+            viol.add(
+                format!("roundtrip:{}:encoder-failure", item.name()),
+                format!("{:?}: {}", item, e),
+                json!({"kind": "roundtrip", "item": item, "parts": []}),
+            );
+            return;
+        }
+    };
+    t.runs += for_partitions(bytes.len(), max_cuts, |parts| match roundtrip(item, &bytes, parts) {
+        Ok(()) => true,
+        Err((kind, detail)) => {
+            viol.add(
+                format!("roundtrip:{}:{}", item.name(), kind),
+                format!("{}: {}", show_cmds(&item.commands()), detail),
+                json!({"kind": "roundtrip", "item": item, "parts": parts}),
+            );
+            false
+        }
+    });
+}
+
+const TRI: [Option<bool>; 3] = [None, Some(true), Some(false)];
+
+struct ModSpace {
+    cols: Vec<Option<Rgb>>,
+}
+
+impl ModSpace {
+    fn size(&self) -> u64 {
+        let n = self.cols.len() as u64;
+        2 * n * n * n * 7 * 81
+    }
+    fn get(&self, mut i: u64) -> ModSpec {
+        let n = self.cols.len() as u64;
+        let mut take = |r: u64| {
+            let v = i % r;
+            i /= r;
+            v
+        };
+        let strike = TRI[take(3) as usize];
+        let blink = TRI[take(3) as usize];
+        let italic = TRI[take(3) as usize];
+        let bold = TRI[take(3) as usize];
+        let ul = match take(7) {
+            0 => None,
+            k => Some(k as u8 - 1),
+        };
+        let reset = take(2) == 1;
+        let ulc = self.cols[take(n) as usize];
+        let bg = self.cols[take(n) as usize];
+        let fg = self.cols[take(n) as usize];
+        ModSpec { reset, fg, bg, ul, ulc, bold, italic, blink, strike }
+    }
+}
+
+struct FaceSpace {
+    cols: Vec<Option<Rgb>>,
+}
+
+impl FaceSpace {
+    fn size(&self) -> u64 {
+        (self.cols.len() * self.cols.len() * 32 * 6) as u64
+    }
+    fn get(&self, mut i: u64) -> FaceSpec {
+        let n = self.cols.len() as u64;
+        let ul = (i % 6) as u8;
+        i /= 6;
+        let flags = (i % 32) as u8;
+        i /= 32;
+        let bg = self.cols[(i % n) as usize];
+        i /= n;
+        FaceSpec { fg: self.cols[i as usize], bg, flags, ul }
+    }
+}
+
+fn cube(vals: &[u8]) -> Vec<Rgb> {
+    let mut v = vec![];
+    for r in vals {
+        for g in vals {
+            for b in vals {
+                v.push([*r, *g, *b]);
+            }
+        }
+    }
+    v
+}
+
+fn opt(cols: &[Rgb]) -> Vec<Option<Rgb>> {
+    std::iter::once(None).chain(cols.iter().map(|c| Some(*c))).collect()
+}
+
+/// Parallel sweep over `0..total`, items made by `get`.
+fn sweep_items<G: Fn(u64) -> Item + Sync>(
+    ctx: &Ctx,
+    total: u64,
+    max_cuts: usize,
+    get: G,
+    viol: &Violations,
+    samples: &Samples,
+    base: u64,
+    items: &AtomicU64,
+    runs: &AtomicU64,
+) {
+    let chunk = 256u64;
+    (0..total.div_ceil(chunk)).into_par_iter().for_each(|k| {
+        if ctx.over_cap() {
+            return;
+        }
+        let mut t = Tally::default();
+        for i in k * chunk..((k + 1) * chunk).min(total) {
+            let item = get(i);
+            roundtrip_item(&item, max_cuts, viol, &mut t);
+            samples.offer(base + i, || {
+                json!({"roundtrip": item, "bytes": encode_all(item.commands()).map(|b| esc(&b)).unwrap_or_default()})
+            });
+        }
+        items.fetch_add(t.items, Ordering::Relaxed);
+        runs.fetch_add(t.runs, Ordering::Relaxed);
+    });
+}
+
+// ---------------------------------------------------------------------------------------
+// (b) SGR histories through tty_writer
+// ---------------------------------------------------------------------------------------
+
+/// A `CellWrite` that records what it is given.
+#[derive(Default)]
+struct Sink {
+    face: Face,
+    wraps: bool,
+    cells: Vec<Cell>,
+}
+
+impl CellWrite for Sink {
+    fn face(&self) -> Face {
+        self.face
+    }
+    fn set_face(&mut self, face: Face) -> Face {
+        std::mem::replace(&mut self.face, face)
+    }
+    fn wraps(&self) -> bool {
+        self.wraps
+    }
+    fn set_wraps(&mut self, wraps: bool) -> bool {
+        std::mem::replace(&mut self.wraps, wraps)
+    }
+    fn put_cell(&mut self, cell: Cell) -> bool {
+        self.cells.push(cell);
+        true
+    }
+}
+
+/// The SGR tokens of the alphabet: the codes the library's SGR interpreter has an arm for
+/// (which includes everything its encoder emits at any depth), minus 21 (see `run`).
+const TOKENS: [&str; 24] = [
+    "0", "", "1", "22", "3", "23", "4", "4:2", "4:3", "4:5", "24", "5", "25", "9", "29", "31", "42", "91", "102",
+    "38;5;196", "48;5;244", "38;2;1;128;255", "48:2::3:4:5", "58;2;7;8;9",
+];
+/// The text written after every sequence (two bytes, so a cut can fall inside it).
+const TEXT: char = '\u{e9}';
+
+type SgrOp = Vec<&'static str>;
+
+fn op_bytes(op: &SgrOp) -> Vec<u8> {
+    let mut s = String::from("\x1b[");
+    s.push_str(&op.join(";"));
+    s.push('m');
+    s.push(TEXT);
+    s.into_bytes()
+}
+
+fn op_params(op: &SgrOp) -> Vec<Param> {
+    let joined = op.join(";");
+    joined
+        .split(';')
+        .map(|g| g.split(':').map(|v| v.parse::<u64>().ok()).collect())
+        .collect()
+}
+
+/// Write `bytes` through a fresh `tty_writer()` in the given parts; returns cells and final face.
+fn write_parts(bytes: &[u8], parts: &[usize]) -> Result<(Vec<Cell>, Face), String> {
+    let r = catch(|| {
+        let mut w = Sink::default().tty_writer();
+        let mut off = 0;
+        for p in parts {
+            w.write_all(&bytes[off..off + p]).map_err(|e| format!("write failed: {e}"))?;
+            off += p;
+        }
+        let sink = std::mem::take(w.parent());
+        Ok::<_, String>((sink.cells, sink.face))
+    });
+    match r {
+        Err(p) => Err(format!("writer panicked: {} ({}:{})", p.message, p.file, p.line)),
+        Ok(r) => r,
+    }
+}
+
+/// The colours the library itself gives to palette entries 0..=15 through `38;5;n`
+/// (no specification fixes them; the history oracle only needs them to be used consistently,
+/// which `palette_consistency` checks).
+fn palette_probe() -> Result<[RGBA; 16], String> {
+    let mut out = [RGBA::new(0, 0, 0, 255); 16];
+    for (n, slot) in out.iter_mut().enumerate() {
+        let bytes = format!("\x1b[38;5;{n}mx").into_bytes();
+        let (cells, _) = write_parts(&bytes, &[bytes.len()])?;
+        match cells.first().map(|c| c.face().fg) {
+            Some(Some(c)) => *slot = c,
+            other => return Err(format!("38;5;{n} gives foreground {:?}", other)),
+        }
+    }
+    Ok(out)
+}
+
+/// 3x / 9x / 38;5;n / 38:5:n and 4x / 10x / 48;5;n / 48:5:n all name the same palette entry
+/// (the reference maps entry n < 16 to the probed colour, so this is a consistency check).
+fn palette_consistency(pal: &[RGBA; 16], viol: &Violations) -> u64 {
+    let mut checked = 0;
+    for n in 0..16usize {
+        let short_fg = if n < 8 { 30 + n } else { 90 + n - 8 };
+        let short_bg = short_fg + 10;
+        for seq in [
+            format!("{short_fg}"),
+            format!("38:5:{n}"),
+            format!("{short_bg}"),
+            format!("48;5;{n}"),
+            format!("48:5:{n}"),
+        ] {
+            checked += 1;
+            let token: &'static str = Box::leak(seq.into_boxed_str());
+            let hist = [vec![token]];
+            let parts = [op_bytes(&hist[0]).len()];
+            if let Err((kind, detail)) = check_history(&hist, &parts, pal) {
+                viol.add(format!("sgr-history:palette:{kind}"), detail, hist_json(&hist, &parts));
+            }
+        }
+    }
+    checked
+}
+
+fn colour_face(c: Colour, pal: &[RGBA; 16]) -> Option<RGBA> {
+    match c {
+        Colour::Default => None,
+        Colour::Rgb(r, g, b) => Some(RGBA::new(r, g, b, 255)),
+        Colour::Index(n) => Some(match sgr::xterm_rgb(n) {
+            Some((r, g, b)) => RGBA::new(r, g, b, 255),
+            None => pal[n as usize],
+        }),
+    }
+}
+
+fn rendition_face(r: &Rendition, pal: &[RGBA; 16]) -> Face {
+    let ul = match r.underline {
+        Underline::None => 0,
+        Underline::Single => 1,
+        Underline::Double => 2,
+        Underline::Curly => 3,
+        Underline::Dotted => 4,
+        Underline::Dashed => 5,
+    };
+    let flags = r.bold as u8 | (r.italic as u8) << 1 | (r.blink as u8) << 2 | (r.reverse as u8) << 3 | (r.strike as u8) << 4;
+    Face::new(colour_face(r.fg, pal), colour_face(r.bg, pal), attrs(flags, ul))
+}
+
+/// Which slot of the face is wrong (for the finding key).
+fn face_diff(want: &Face, got: &Face) -> &'static str {
+    if want.fg != got.fg {
+        return "fg";
+    }
+    if want.bg != got.bg {
+        return "bg";
+    }
+    if want.attrs.underline() != got.attrs.underline() {
+        return "underline";
+    }
+    for (name, f) in [
+        ("bold", FaceAttrs::BOLD),
+        ("italic", FaceAttrs::ITALIC),
+        ("blink", FaceAttrs::BLINK),
+        ("reverse", FaceAttrs::REVERSE),
+        ("strike", FaceAttrs::STRIKE),
+    ] {
+        if want.attrs.contains(f) != got.attrs.contains(f) {
+            return name;
+        }
+    }
+    "attribute-bits"
+}
+
+/// Reference: the face of the cell written after each sequence of the history.
+fn model_faces(hist: &[SgrOp], pal: &[RGBA; 16]) -> Vec<Face> {
+    let mut r = Rendition::default();
+    hist.iter()
+        .map(|op| {
+            sgr::apply(&mut r, &op_params(op));
+            rendition_face(&r, pal)
+        })
+        .collect()
+}
+
+/// Execute one history under one partition and compare with the reference.
+fn check_history(hist: &[SgrOp], parts: &[usize], pal: &[RGBA; 16]) -> Result<Face, (String, String)> {
+    let bytes: Vec<u8> = hist.iter().flat_map(op_bytes).collect();
+    let want = model_faces(hist, pal);
+    let (cells, last) = write_parts(&bytes, parts).map_err(|e| ("writer-failure".to_string(), e))?;
+    let show = || format!("bytes {:?} written as {:?}", esc(&bytes), parts);
+    if cells.len() != want.len() {
+        return Err(("cell-count".into(), format!("{}: {} cells, {} characters were written", show(), cells.len(), want.len())));
+    }
+    for (i, (cell, w)) in cells.iter().zip(&want).enumerate() {
+        if !matches!(cell.kind(), CellKind::Char(c) if *c == TEXT) {
+            return Err(("cell-content".into(), format!("{}: cell {i} is {:?}", show(), cell.kind())));
+        }
+        let g = cell.face();
+        if g != *w {
+            return Err((
+                format!("face:{}", face_diff(w, &g)),
+                format!("{}: cell {i} has Face({g}), SGR semantics give Face({w})", show()),
+            ));
+        }
+    }
+    let final_want = want.last().copied().unwrap_or_default();
+    if last != final_want {
+        return Err(("final-face".into(), format!("{}: sink face Face({last}), want Face({final_want})", show())));
+    }
+    Ok(last)
+}
+
+fn hist_json(hist: &[SgrOp], parts: &[usize]) -> Value {
+    json!({"kind": "history", "ops": hist, "parts": parts})
+}
+
+/// The partitions a history is executed under: earlier sequences one write each, the last
+/// sequence (with its text) under every partition with <= `max_cuts` cuts and byte by byte;
+/// plus the whole history in one write and the whole history byte by byte.
+fn history_partitions(hist: &[SgrOp], max_cuts: usize, mut f: impl FnMut(&[usize]) -> bool) -> u64 {
+    let lens: Vec<usize> = hist.iter().map(|op| op_bytes(op).len()).collect();
+    let total: usize = lens.iter().sum();
+    let mut count = 0;
+    if hist.is_empty() {
+        f(&[]);
+        return 1;
+    }
+    let (prefix, last) = lens.split_at(lens.len() - 1);
+    let n = last[0];
+    let mut go = true;
+    count += for_partitions(n, max_cuts, |p| {
+        let parts: Vec<usize> = prefix.iter().copied().chain(p.iter().copied()).collect();
+        go = f(&parts);
+        go
+    });
+    if !go {
+        return count;
+    }
+    let extra: [Vec<usize>; 3] = [
+        prefix.iter().copied().chain(std::iter::repeat(1).take(n)).collect(),
+        vec![total],
+        vec![1; total],
+    ];
+    for parts in extra {
+        count += 1;
+        if !f(&parts) {
+            break;
+        }
+    }
+    count
+}
+
+fn ops_up_to(tokens: &[&'static str], max_params: usize) -> Vec<SgrOp> {
+    let mut out: Vec<SgrOp> = vec![];
+    let mut level: Vec<SgrOp> = vec![vec![]];
+    for _ in 0..max_params {
+        let mut next = vec![];
+        for p in &level {
+            for t in tokens {
+                let mut q = p.clone();
+                q.push(*t);
+                next.push(q);
+            }
+        }
+        out.extend(next.iter().cloned());
+        level = next;
+    }
+    out
+}
+
+pub fn run(ctx: &Ctx) -> Result<Report, String> {
+    let viol = Violations::new();
+    let samples = Samples::new(ctx.seed);
+    let items = AtomicU64::new(0);
+    let runs = AtomicU64::new(0);
+    let mut base = 0u64;
+    let mut sizes = serde_json::Map::new();
+
+    // ---- (a) round trip -------------------------------------------------------------
+    let few: Vec<Rgb> = vec![[0, 0, 0], [1, 128, 255], [255, 255, 255]];
+    let one: Vec<Rgb> = vec![[1, 128, 255]];
+    // modifications: all non-colour fields x colours from {None, 3 colours}^3
+    let wide = ModSpace { cols: opt(&few) };
+    let narrow = ModSpace { cols: opt(&one) };
+    let (two_cut_mods, one_cut_mods) = match ctx.tier {
+        Tier::Quick => (&narrow, Some(&wide)),
+        Tier::Thorough => (&wide, None),
+    };
+    sweep_items(ctx, two_cut_mods.size(), 2, |i| Item::Modify(two_cut_mods.get(i)), &viol, &samples, base, &items, &runs);
+    base += two_cut_mods.size();
+    sizes.insert("modifications_two_cuts".into(), json!(two_cut_mods.size()));
+    if let Some(s) = one_cut_mods {
+        sweep_items(ctx, s.size(), 1, |i| Item::Modify(s.get(i)), &viol, &samples, base, &items, &runs);
+        base += s.size();
+        sizes.insert("modifications_one_cut".into(), json!(s.size()));
+    }
+    // the same records between two characters (single write and <= 1 cut)
+    sweep_items(ctx, narrow.size(), 1, |i| Item::ModifyCtx(narrow.get(i)), &viol, &samples, base, &items, &runs);
+    base += narrow.size();
+    sizes.insert("modifications_between_text".into(), json!(narrow.size()));
+
+    if std::env::var_os("SNT_TIMING").is_some() {
+        eprintln!("mods {:.2}", ctx.elapsed());
+    }
+    // colour values: one colour field at a time over a lattice with every digit-length mix,
+    // alone / after reset / followed by another parameter
+    let vals: &[u8] = ctx.tier.pick(&[0, 9, 10, 99, 100, 255][..], &[0, 1, 9, 10, 99, 100, 127, 128, 199, 200, 254, 255][..]);
+    let lattice = cube(vals);
+    let colour_total = (lattice.len() * 9) as u64;
+    sweep_items(
+        ctx,
+        colour_total,
+        2,
+        |i| {
+            let c = Some(lattice[(i / 9) as usize]);
+            let mut m = ModSpec::default();
+            match i % 3 {
+                0 => m.fg = c,
+                1 => m.bg = c,
+                _ => m.ulc = c,
+            }
+            match i / 3 % 3 {
+                0 => {}
+                1 => m.reset = true,
+                _ => m.strike = Some(false),
+            }
+            Item::Modify(m)
+        },
+        &viol,
+        &samples,
+        base,
+        &items,
+        &runs,
+    );
+    base += colour_total;
+    sizes.insert("colour_lattice_modifications".into(), json!(colour_total));
+
+    if std::env::var_os("SNT_TIMING").is_some() {
+        eprintln!("colours {:.2}", ctx.elapsed());
+    }
+    // faces
+    let small = FaceSpace { cols: opt(&cube(&[0, 128, 255])) };
+    let tiny = FaceSpace { cols: opt(&[[1, 128, 255], [255, 255, 255]]) };
+    let big = FaceSpace { cols: opt(&cube(&[0, 1, 127, 128, 255])) };
+    let (two_cut_faces, one_cut_faces) = match ctx.tier {
+        Tier::Quick => (&tiny, &small),
+        Tier::Thorough => (&small, &big),
+    };
+    sweep_items(ctx, two_cut_faces.size(), 2, |i| Item::Face(two_cut_faces.get(i)), &viol, &samples, base, &items, &runs);
+    base += two_cut_faces.size();
+    sweep_items(ctx, one_cut_faces.size(), 1, |i| Item::Face(one_cut_faces.get(i)), &viol, &samples, base, &items, &runs);
+    base += one_cut_faces.size();
+    sizes.insert("faces_two_cuts".into(), json!(two_cut_faces.size()));
+    sizes.insert("faces_one_cut".into(), json!(one_cut_faces.size()));
+
+    if std::env::var_os("SNT_TIMING").is_some() {
+        eprintln!("faces {:.2}", ctx.elapsed());
+    }
+    // every character except ESC (all 1 112 063 of them), alone under every partition of its
+    // UTF-8 bytes, and around a modification
+    let all_chars: Vec<u32> = (0..=0x10ffffu32).filter(|c| char::from_u32(*c).is_some() && *c != 0x1b).collect();
+    sweep_items(ctx, all_chars.len() as u64, 2, |i| Item::Char(all_chars[i as usize]), &viol, &samples, base, &items, &runs);
+    base += all_chars.len() as u64;
+    let ctx_step = ctx.tier.pick(17usize, 1usize);
+    let ctx_chars: Vec<u32> = all_chars.iter().copied().step_by(ctx_step).collect();
+    sweep_items(ctx, ctx_chars.len() as u64, 1, |i| Item::CharCtx(ctx_chars[i as usize]), &viol, &samples, base, &items, &runs);
+    sizes.insert("characters".into(), json!(all_chars.len()));
+    sizes.insert("characters_around_modification".into(), json!(ctx_chars.len()));
+    let roundtrip_capped = ctx.over_cap();
+
+    if std::env::var_os("SNT_TIMING").is_some() {
+        eprintln!("chars {:.2}", ctx.elapsed());
+    }
+    // ---- (b) histories ---------------------------------------------------------------
+    let pal = palette_probe().map_err(|e| format!("palette probe: {e}"))?;
+    let palette_checks = palette_consistency(&pal, &viol);
+    let traces = AtomicU64::new(0);
+    let ops2 = ops_up_to(&TOKENS, 2);
+    // thorough: deep enough to close the state graph (the BFS stops at the fixpoint)
+    let depth = ctx.tier.pick(2, 8);
+    let step = |hist: &[SgrOp], max_cuts: usize| -> Option<u128> {
+        let mut key = None;
+        let n = history_partitions(hist, max_cuts, |parts| match check_history(hist, parts, &pal) {
+            Ok(face) => {
+                key = Some(hash128(&face));
+                true
+            }
+            Err((kind, detail)) => {
+                viol.add(format!("sgr-history:{kind}"), detail, hist_json(hist, parts));
+                key = None;
+                false
+            }
+        });
+        traces.fetch_add(n, Ordering::Relaxed);
+        if key.is_some() && !hist.is_empty() {
+            samples.offer(crate::engine::util::hash64(hist) | 4, || {
+                json!({"history": hist, "cell_faces": show_faces(&model_faces(hist, &pal))})
+            });
+        }
+        key
+    };
+    let stats = bfs::bfs(ctx, &ops2, depth, |hist| step(hist, 2));
+    for hist in [vec![vec!["1", "4:3"], vec!["38;2;1;128;255", "9"]], vec![vec!["4:2"], vec!["24", "42"]]] {
+        let bytes: Vec<u8> = hist.iter().flat_map(op_bytes).collect();
+        samples.force(json!({
+            "history": hist,
+            "bytes": esc(&bytes),
+            "reference_cell_faces": show_faces(&model_faces(&hist, &pal)),
+            "library_cell_faces": write_parts(&bytes, &[bytes.len()]).map(|(c, _)| show_faces(&c.iter().map(|c| c.face()).collect::<Vec<_>>())).unwrap_or_else(|e| e),
+        }));
+    }
+
+    if std::env::var_os("SNT_TIMING").is_some() {
+        eprintln!("bfs {:.2}", ctx.elapsed());
+    }
+    // sequences with three parameters: from the initial state under all <= 2-cut partitions ...
+    let ops3: Vec<SgrOp> = ops_up_to(&TOKENS, 3).into_iter().filter(|o| o.len() == 3).collect();
+    let three_ok = AtomicU64::new(0);
+    ops3.par_iter().for_each(|op| {
+        if step(std::slice::from_ref(op), 2).is_some() {
+            three_ok.fetch_add(1, Ordering::Relaxed);
+        }
+    });
+    // ... and (thorough) after every one- or two-parameter sequence, whole and byte by byte
+    let mut two_step = 0u64;
+    if ctx.tier == Tier::Thorough && !ctx.over_cap() {
+        let done = AtomicU64::new(0);
+        ops2.par_iter().for_each(|first| {
+            if ctx.over_cap() {
+                return;
+            }
+            for second in &ops3 {
+                let hist = [first.clone(), second.clone()];
+                step(&hist, 0);
+            }
+            done.fetch_add(ops3.len() as u64, Ordering::Relaxed);
+        });
+        two_step = done.load(Ordering::Relaxed);
+    }
+    if std::env::var_os("SNT_TIMING").is_some() {
+        eprintln!("three {:.2}", ctx.elapsed());
+    }
+    let capped = roundtrip_capped || stats.capped || ctx.over_cap();
+
+    let mut r = Report::new("model_checking");
+    r.set("states", stats.states)
+        .set("transitions", stats.transitions)
+        .set("traces_validated_against_impl", traces.load(Ordering::Relaxed))
+        .set("samples", samples.into_vec())
+        .set("exhaustive", !capped)
+        .set("capped", capped)
+        .set("bfs_depth_completed", stats.max_depth)
+        .set("bfs_levels", stats.levels.clone())
+        .set("bfs_fixpoint", stats.fixpoint)
+        .set("bfs_pruned", stats.pruned)
+        .set("alphabet_tokens", TOKENS.len())
+        .set("alphabet_sequences_1_2_params", ops2.len())
+        .set("three_param_sequences_from_initial_state", ops3.len())
+        .set("three_param_sequences_agreeing", three_ok.load(Ordering::Relaxed))
+        .set("two_step_histories_with_three_param_sequence", two_step)
+        .set("palette_consistency_checks", palette_checks)
+        .set("roundtrip_items", items.load(Ordering::Relaxed))
+        .set("roundtrip_decodes", runs.load(Ordering::Relaxed))
+        .set("roundtrip_spaces", Value::Object(sizes))
+        .set("raw_violations", viol.raw_count());
+    r.assume("SGR semantics = model::sgr (ECMA-48 8.3.117, xterm ctlseqs, kitty underline extension)");
+    r.assume("alphabet = codes the library's SGR interpreter has an arm for; 21 is left out: the library reads it as bold-off, ECMA-48/xterm as double underline, terminals disagree, the statement is silent");
+    r.assume("palette entries 16..=255 have xterm's RGB values; entries 0..=15 only have to be used consistently (3x = 9x-8 = 38;5;n = 38:5:n, same for background)");
+    r.assume("the underline colour (58) has no slot in Face; its parameters must be consumed without any other effect");
+    r.assume("history partitions: earlier sequences one write each, the last one under every <= 2-cut partition and byte by byte, plus the whole history in one write and byte by byte");
+    r.assume("round trip partitions: every partition with <= 2 cuts on the smaller lattice, <= 1 cut on the larger one (sizes in roundtrip_spaces)");
+    r.violations = viol.into_vec();
+    Ok(r)
+}
+
+pub fn replay(w: &Value) -> Result<(bool, String), String> {
+    let parts: Vec<usize> = serde_json::from_value(w["parts"].clone()).map_err(|e| format!("parts: {e}"))?;
+    match w["kind"].as_str() {
+        Some("roundtrip") => {
+            let item: Item = serde_json::from_value(w["item"].clone()).map_err(|e| format!("item: {e}"))?;
+            let bytes = match encode_all(item.commands()) {
+                Ok(b) => b,
+                Err(e) => return Ok((true, format!("written  {:?}\n{e}", item.commands()))),
+            };
+            let parts = if parts.is_empty() && !bytes.is_empty() { vec![bytes.len()] } else { parts };
+            if parts.iter().sum::<usize>() != bytes.len() {
+                return Err(format!("partition {:?} does not fit the {} encoded bytes (encoder changed?)", parts, bytes.len()));
+            }
+            let head = format!(
+                "written  {}\nbytes    {:?} in parts {:?}\nexpected {}\nobserved {}",
+                show_cmds(&item.commands()),
+                esc(&bytes),
+                parts,
+                show_cmds(&item.expected()),
+                match decode_parts(&bytes, &parts) {
+                    Ok(got) => show_cmds(&got),
+                    Err(e) => e,
+                }
+            );
+            Ok(match roundtrip(&item, &bytes, &parts) {
+                Ok(()) => (false, format!("{head}\nagrees")),
+                Err((kind, _)) => (true, format!("{head}\n[{kind}]")),
+            })
+        }
+        Some("history") => {
+            let ops: Vec<Vec<String>> = serde_json::from_value(w["ops"].clone()).map_err(|e| format!("ops: {e}"))?;
+            let hist: Vec<SgrOp> = ops
+                .into_iter()
+                .map(|op| op.into_iter().map(|t| &*Box::leak(t.into_boxed_str())).collect())
+                .collect();
+            let pal = palette_probe()?;
+            let bytes: Vec<u8> = hist.iter().flat_map(op_bytes).collect();
+            if parts.iter().sum::<usize>() != bytes.len() {
+                return Err(format!("partition {:?} does not fit {} bytes", parts, bytes.len()));
+            }
+            let head = format!(
+                "history  {:?}\nbytes    {:?} in parts {:?}\nexpected cell faces {}\nobserved cell faces {}",
+                hist,
+                esc(&bytes),
+                parts,
+                show_faces(&model_faces(&hist, &pal)),
+                match write_parts(&bytes, &parts) {
+                    Ok((cells, _)) => show_faces(&cells.iter().map(|c| c.face()).collect::<Vec<_>>()),
+                    Err(e) => e,
+                }
+            );
+            Ok(match check_history(&hist, &parts, &pal) {
+                Ok(_) => (false, format!("{head}\nagrees")),
+                Err((kind, detail)) => (true, format!("{head}\n[{kind}] {detail}")),
+            })
+        }
+        _ => Err("witness without kind".into()),
+    }
 }
